@@ -156,7 +156,24 @@ class Unit:
         return [b for b in self.bodies.values() if pred(b)]
 
 
+# memo tables of the analyses that are keyed by item path only: valid for one program.  A process that analyses several trees in
+# turn (bin/seedall, bin/mutsweep, bin/mutretest, the thorough self-test) must not carry them over - a summary computed for a function
+# of the previous tree would be used for the function of the same name in the next one.
+_PROGRAM_CACHES = {"mx.absint": ("_RET", "_FLD", "_PC", "_PF", "_WIDTH", "_ACCUM", "_BITACC", "USED_LEMMAS"), "mx.rules.lemmas": ("_ITEM",), "mx.rules.c16": ("_SS",)}
+
+
+def reset_program_caches():
+    import sys
+    for modname, names in _PROGRAM_CACHES.items():
+        m = sys.modules.get(modname)
+        for n in names:
+            d = getattr(m, n, None) if m is not None else None
+            if isinstance(d, dict):
+                d.clear()
+
+
 def load(repo="/repo", all_targets=False, overflow_checks=True, keep=False):
+    reset_program_caches()
     out, nonce, wall, log = run_driver(repo, all_targets=all_targets, overflow_checks=overflow_checks)
     try:
         prog = Program(out, nonce)
